@@ -244,6 +244,13 @@ def staleScan (t : Target) (name rid : Bytes) (order : List Nat) : Option StaleS
 def staleVictims (s : StaleScan) (before : Int) (exceptNewest : Bool) : List (Nat × CpInfo) :=
   s.found.filter (fun p => ¬ ((p.1 = s.newestDb ∧ exceptNewest) ∨ p.2.mtime > before))
 
+/-- the fields `DelStaleCheckpoint` HDELs of a stale entry: all four for an id no source
+    reports; for a live id (`exceptNewest`) only `_offset` and `_mtime` — REPAIRED (D24): a
+    running replay that comes back to that database writes only the offset field, the run id
+    and version fields must survive (an entry without `_offset` is no position) -/
+def staleKeys (rid : Bytes) (exceptNewest : Bool) : List FKey :=
+  if exceptNewest then [(rid, .offset), (rid, .mtime)] else fourKeys rid
+
 /-- `DelStaleCheckpoint`: `(total, deleted, requests)`; an error returns (0,0,[])
     (`before` = time.Now().Add(-beforeNow).UnixNano()) -/
 def delStale (t : Target) (name rid : Bytes) (before : Int) (exceptNewest : Bool)
@@ -252,7 +259,7 @@ def delStale (t : Target) (name rid : Bytes) (before : Int) (exceptNewest : Bool
   | none => (0, 0, [])
   | some s =>
     let vs := staleVictims s before exceptNewest
-    (s.found.length, vs.length, vs.map (fun p => Req.hdelCp p.1 name (fourKeys p.2.runId)))
+    (s.found.length, vs.length, vs.map (fun p => Req.hdelCp p.1 name (staleKeys p.2.runId exceptNewest)))
 
 /-- `gcStaleCp`: over the pairs `GetAllCheckpointHash` returned, each
     `DelStaleCheckpoint` reading the target as the earlier ones left it.
